@@ -42,15 +42,16 @@ Definition tabA (S : scheme) : list (list Q) :=
   [zeros6; coefs (s2 S); coefs (s3 S); coefs (s4 S); coefs (s5 S); coefs (s6 S)].
 Definition tabB (S : scheme) : list Q := coefs (res S).
 Definition tabD (S : scheme) : list Q := coefs (est S).           (* b - b* *)
-Definition vsub (u v : list Q) : list Q := map (fun p => fst p - snd p) (combine u v).
-Definition vmul (u v : list Q) : list Q := map (fun p => fst p * snd p) (combine u v).
+Definition vsub (u v : list Q) : list Q := map (fun p => Qred (fst p - snd p)) (combine u v).
+(* Qred keeps numerators/denominators small when these are evaluated by vm_compute; Qred q == q *)
+Definition vmul (u v : list Q) : list Q := map (fun p => Qred (fst p * snd p)) (combine u v).
 Definition tabBstar (S : scheme) : list Q := vsub (tabB S) (tabD S).
 Definition tabC (S : scheme) : list Q :=      (* coefficient of h in the time handed to evaluation i *)
   [t1 S 0 0 1; t2 S 0 0 1; t3 S 0 0 1; t4 S 0 0 1; t5 S 0 0 1; t6 S 0 0 1].
 
-Definition dot (u v : list Q) : Q := fold_right Qplus 0 (vmul u v).
+Definition qsum (u : list Q) : Q := fold_right (fun x acc => Qred (x + acc)) 0 u.
+Definition dot (u v : list Q) : Q := qsum (vmul u v).
 Definition mv (A : list (list Q)) (v : list Q) : list Q := map (fun row => dot row v) A.
-Definition qsum (u : list Q) : Q := fold_right Qplus 0 u.
 Definition veqb (u v : list Q) : bool :=
   Nat.eqb (length u) (length v) && forallb (fun p => Qeq_bool (fst p) (snd p)) (combine u v).
 
